@@ -63,7 +63,7 @@ func makeGadget(ctxHash *hash.Hash, group curve.Curve) []curve.Scalar {
 		}
 	}
 	// Generate random noise
-	digest := ctxHash.Fork(&hash.BytesWithDomain{TheDomain: "Multiply Gadget Sampling", Bytes: nil}).Digest()
+	digest := ctxHash.Fork(&hash.BytesWithDomain{TheDomain: "Multiply Gadget Sampling", Bytes: []byte{}}).Digest()
 	for i := scalarEnd; i < len(out); i++ {
 		out[i] = sample.Scalar(digest, group)
 	}
@@ -130,7 +130,7 @@ func (r *MultiplySender) Round1(msg *MultiplyReceiveRound1Message) (*MultiplySen
 		return nil, nil, err
 	}
 
-	digest := r.ctxHash.Fork(&hash.BytesWithDomain{TheDomain: "Multiply Chi Sampling", Bytes: nil}).Digest()
+	digest := r.ctxHash.Fork(&hash.BytesWithDomain{TheDomain: "Multiply Chi Sampling", Bytes: []byte{}}).Digest()
 	chi0 := sample.Scalar(digest, r.group)
 	chi1 := sample.Scalar(digest, r.group)
 
@@ -224,7 +224,7 @@ func (r *MultiplyReceiver) Round2(msg *MultiplySendRound1Message) (curve.Scalar,
 		}
 	}
 
-	digest := r.ctxHash.Fork(&hash.BytesWithDomain{TheDomain: "Multiply Chi Sampling", Bytes: nil}).Digest()
+	digest := r.ctxHash.Fork(&hash.BytesWithDomain{TheDomain: "Multiply Chi Sampling", Bytes: []byte{}}).Digest()
 	chi0 := sample.Scalar(digest, r.group)
 	chi1 := sample.Scalar(digest, r.group)
 
